@@ -29,8 +29,14 @@ def scenarios(tier):
                 pick.append({x: ['E' if x == k else 'S'] for x in keys})
             pick.append({k: ['E'] for k in keys})
             assigns = pick
+        if name.startswith('cyc_'):
+            # the second pass through the loop fails
+            keys = wfgen.action_keys(prog)
+            assigns = assigns + [
+                {x: (['S', 'E'] if x == k else ['S']) for x in keys}
+                for k in keys if k not in ('s', 'c', 'h')]
         for ai, res in enumerate(assigns):
-            tag = ''.join(res[k][0] for k in sorted(res))
+            tag = ''.join(''.join(res[k]) for k in sorted(res))
             scn = wfscn.ProgScenario('%s/%s' % (name, tag), prog, results=res)
             if n <= EXHAUST_SIZE:
                 bound = None
@@ -46,6 +52,27 @@ def scenarios(tier):
                                             scheduler='default_mem'),
                              2 if quick else 3, 60 if quick else 900, 1,
                              ai + 0.5))
+    # every direct DAG shape over <= 3 tasks (on-success / on-error edges
+    # to <= 2 later tasks, join all / one / none on multi-inbound tasks),
+    # enumerated simplest first; exhausted
+    for n in (1, 2, 3):
+        for i, prog in enumerate(wfgen.enumerate_direct(n)):
+            assigns = wfgen.result_assignments(prog)
+            if quick:
+                # all succeed; exactly the tasks that have an on-error
+                # route fail; all fail
+                keys = wfgen.action_keys(prog)
+                herr = {k: ['E' if prog['tasks'][k].get('on-error') else 'S']
+                        for k in keys}
+                pick = [{k: ['S'] for k in keys}, herr,
+                        {k: ['E'] for k in keys}]
+                assigns = [a for j, a in enumerate(pick)
+                           if a not in pick[:j]]
+            for ai, res in enumerate(assigns):
+                tag = ''.join(res[k][0] for k in sorted(res))
+                scn = wfscn.ProgScenario('enum%d.%d/%s' % (n, i, tag), prog,
+                                         results=res)
+                jobs.append((scn, None, 60 if quick else 900, 1, ai + 0.7))
     # every program first with its first assignment, then the second, ...
     jobs.sort(key=lambda j: j[4])
     return [j[:4] for j in jobs]
@@ -54,7 +81,7 @@ def scenarios(tier):
 def main(tier):
     rep = common.Report(PROP, tier)
     jobs = scenarios(tier)
-    deadline = time.time() + (200 if tier == 'quick' else 2400)
+    deadline = time.time() + (270 if tier == 'quick' else 2400)
     res = common.parallel_map(common.explore_job, jobs, deadline=deadline)
     rep.add_explore_results(jobs, res)
     rep.assumptions = [
@@ -68,7 +95,7 @@ def main(tier):
         'probability negligible)',
     ]
     return rep.finish(
-        rule='curated direct-workflow programs x action-result assignments; '
+        rule='curated direct-workflow programs (incl. bounded cycles) + every direct DAG shape over <= 3 tasks x action-result assignments; '
              'DFS over interleavings of message deliveries, post-commit '
              'operations and scheduler steps on the real engine; a state is '
              'the canonical DB image + pending messages + suspended '
